@@ -14,7 +14,7 @@ N, P, HALF = ec.N, ec.P, ec.HALF_N
 M256 = gens.M256
 
 RULE = ("cases: (a) ENUMERATED public-key strings: every prefix byte 0..255 x every length 0..80 x 6 bodies, and 26 interesting prefixes x lengths around 33/65 x "
-        "~70 x values (0,1,p-1,p,p+1,n-1,n,n+1,2^256-1, their on-curve neighbours, tiny-x points and their x+p re-encodings, x of tiny-y points) x y variants "
+        "~40 x values (0,1,p-1,p,p+1,n-1,n,n+1,2^256-1, their on-curve neighbours, tiny-x points and their x+p re-encodings, x of tiny-y points) x y variants "
         "(both roots, y+p for tiny y, off by one, 0, p-1, p, 2^256-1); the same x values through the x-only parser; "
         "(b) ENUMERATED DER strings from the grammar SEQ(tag, length form) INT(tag, length form, padding, value) INT(...) trailer, with length forms "
         "{minimal, 0x81, 0x82, 0x83, 0x84, 0x88, 0x89, 0x80, 0xFF, 0xFE, +1, -1}, padding {minimal, raw magnitude (reads negative), one / two excess 0x00, excess 0xFF, negated value, empty}, "
@@ -118,6 +118,12 @@ def compact_ser(env, sig):
 
 def no_callbacks(env, where):
     env.require(env.lib.illegal() == 0 and env.lib.errors() == 0, "illegal/error callback fired in %s on untrusted bytes: %s" % (where, env.lib.cbmsg()))
+
+
+def dead_object(comp64):
+    """An object holding in-range scalars (r,s) fails verification for EVERY message and key iff r == 0 or s == 0
+    (for non-zero r,s a satisfying (m,Q) can always be constructed), so this is exactly the documented guarantee."""
+    return comp64[:32] == bytes(32) or comp64[32:] == bytes(32)
 
 
 # a fixed valid (msg, key) pair used to poke at left-over objects
@@ -445,6 +451,13 @@ def der_enum(tier, shard, nshards):
         i += 1
         return (i - 1) % nshards == shard
 
+    # 0. canonical encodings of every pair of values (in-range x out-of-range x oversize), and with each side negated
+    for rv in range(len(_ALLVALUES)):
+        for sv in range(len(_ALLVALUES)):
+            for pr, ps in (("min", "min"), ("neg", "min"), ("min", "neg"), ("raw", "raw")):
+                c = {"seq": [0x30, "min"], "r": [0x02, "min", pr, rv], "s": [0x02, "min", ps, sv], "trail": "none"}
+                if emit(c):
+                    yield c
     # 1. every INT variant (length form x padding x value) on either side, canonical framing, all trailers
     for side in ("r", "s"):
         for form in LENFORMS:
@@ -514,6 +527,7 @@ def check_der_accept(env, b, sig, rs, classes):
         if pk is None:
             pk = env.cache["fixpk"] = lib.pubkey_from_point(_FIX_Q)
         env.require(lib.ecdsa_verify(sig, _FIX_MSG, pk) == 0, "object with out-of-range integer verifies")
+        env.require(dead_object(comp), "DER with an out-of-range integer left an object that can verify (r and s both non-zero)", b=b.hex(), obj=comp.hex())
         rr = ec.b2i(comp[:32])
         ss = ec.b2i(comp[32:])
         canon = der.serialize(rr, ss)
@@ -550,8 +564,7 @@ def run_der_bytes(env, b, classes):
         plain = check_der_accept(env, b, sig, exp, classes)
         nt = not plain
     else:
-        env.require(compact_ser(env, sig)[1] == bytes(64) or lib.ecdsa_verify(sig, _FIX_MSG, env.cache.setdefault("fixpk", lib.pubkey_from_point(_FIX_Q))) == 0,
-                    "object left by a failed DER parse verifies")
+        env.require(dead_object(compact_ser(env, sig)[1]), "object left by a failed DER parse can verify (r and s both non-zero)")
         classes.append("der_reject")
         nt = True
     no_callbacks(env, "signature_parse_der/serialize_der")
@@ -612,7 +625,7 @@ def run_compact_bytes(env, b, recid, classes, prefill=None):
             classes.append("compact_accept")
         else:
             env.require(lib.ecdsa_verify(sig, _FIX_MSG, pk) == 0, "object left by a failed parse_compact verifies")
-            env.require(comp == bytes(64) or (ec.b2i(comp[:32]) == 0 or ec.b2i(comp[32:]) == 0), "object left by a failed parse_compact is a usable signature", obj=comp.hex())
+            env.require(dead_object(comp), "object left by a failed parse_compact can verify (r and s both non-zero)", obj=comp.hex())
             classes.append("compact_reject")
     else:
         h = Heap(b)
